@@ -13,8 +13,8 @@ from vf.gen import rand_chunks
 
 PROPERTY = "C20"
 WORKERS = {"quick": 16, "thorough": 16}
-CASES = {"quick": 700, "thorough": 40000}
-TIME = {"quick": 50, "thorough": 1200}
+CASES = {"quick": 700, "thorough": 4200}
+TIME = {"quick": 50, "thorough": 240}
 TECHNIQUE = "runtime monitoring: a recording block function logs block_info/block_id and the block it received at every invocation; an offline checker compares the log with the layout recorded from arg.chunks/out.chunks at call time (exactly-once per output location, locations, shapes)"
 RULE = (
     "map_blocks calls with 1-3 array inputs (broadcast ranks), new_axis/drop_axis, explicit chunks=, with and without dtype=/meta=, placed "
